@@ -12,6 +12,7 @@ def convert_rustworkx_to_networkx(graph):
         nx_graph = nx.DiGraph(edge_list)
         for node in graph.nodes():
             node_id = node.node_id
+            nx_graph.add_node(node_id)
             nx_node = nx_graph.nodes[node_id]
             nx_node.update(node.to_dict())
 
